@@ -24,7 +24,7 @@ RULE = ("datasets: plain {flat gzip, flat no-gzip, deep gzip behind the "
         "(3,0,1) x raw/gzip (plus 6 datasets whose index and data encodings "
         "differ, 3 datasets with chunks of 0.7-2.4 MB - fault-free runs only - and 6 with 512-1024 "
         "minishards per shard, 12 written by the harness's own specification-"
-        "only writer with minishard indices and data in other orders) x grids 2^3 and (3,2,1), as .shard files and "
+        "only writer with minishard indices and data in other orders, 8 with .shard files and .index/.data pairs mixed in one scale) x grids 2^3 and (3,2,1), as .shard files and "
         "split into legacy .index/.data; URL spellings {plain, trailing "
         "slash, precomputed:// prefix, https}. A state = (history prefix, "
         "answers given so far); a transition = one answered request. "
@@ -91,6 +91,11 @@ def sharded_datasets(tier):
         for legacy in (False, True):
             out.append({"kind": "sharded", "triple": [mb, sb, 0],
                         "enc": "raw", "size": [3, 2, 1], "legacy": legacy})
+    # one scale holding .shard files and .index/.data pairs side by side
+    for t in ((1, 1, 0), (0, 2, 0), (1, 2, 1), (0, 1, 0)):
+        for size in ((2, 2, 2), (3, 2, 2)):
+            out.append({"kind": "sharded", "triple": list(t), "enc": "raw",
+                        "size": list(size), "legacy": "mixed"})
     # written by another (specification-only) writer: other layouts
     for layout in ("reversed", "interleaved", "data-first"):
         for t in ((1, 1, 0), (2, 0, 0), (2, 1, 1)):
@@ -153,7 +158,9 @@ def build(ds, root):
         n = 16 * 2 ** ds["triple"][0]
         for key in (KEY, "s1"):
             sdir = os.path.join(d, key)
-            for name in os.listdir(sdir):
+            for k, name in enumerate(sorted(os.listdir(sdir))):
+                if ds["legacy"] == "mixed" and k % 2 == (key == KEY):
+                    continue        # every other shard stays a .shard file
                 if name.endswith(".shard"):
                     p = os.path.join(sdir, name)
                     data = open(p, "rb").read()
